@@ -192,3 +192,5 @@ func TestKnown(t *testing.T) {
 		})
 	}
 }
+
+var osExit = os.Exit
